@@ -279,6 +279,32 @@ def impl_view(gs):
     }
 
 
+def shape_errors(gs):
+    """A view is six collections: three sets, three dictionaries of sets, each of the documented element class.
+    (A list where a set belongs encodes the same but is not equal to what it decodes to.)"""
+    from AIDojoCoordinator.game_components import IP, Network, Service, Data
+    bad = []
+    for name, cls in (("controlled_hosts", IP), ("known_hosts", IP), ("known_networks", Network)):
+        x = getattr(gs, name)
+        if not isinstance(x, (set, frozenset)):
+            bad.append(f"{name} is a {type(x).__name__}")
+        elif any(not isinstance(e, cls) for e in x):
+            bad.append(f"{name} holds an element that is not a {cls.__name__}")
+    for name, cls in (("known_services", Service), ("known_data", Data), ("known_blocks", IP)):
+        x = getattr(gs, name)
+        if not isinstance(x, dict):
+            bad.append(f"{name} is a {type(x).__name__}")
+            continue
+        for k, v in x.items():
+            if not isinstance(k, IP):
+                bad.append(f"{name} has a key that is not an IP")
+            if not isinstance(v, (set, frozenset)):
+                bad.append(f"{name}[{k}] is a {type(v).__name__}")
+            elif any(not isinstance(e, cls) for e in v):
+                bad.append(f"{name}[{k}] holds an element that is not a {cls.__name__}")
+    return bad
+
+
 def to_gamestate(v):
     from AIDojoCoordinator.game_components import GameState, IP, Network, Service, Data
     return GameState(
